@@ -31,6 +31,10 @@ def surface(d, k):
 
 
 OPT = {"JBessel": dict(nu=0.5), "SuperSpherical": dict(nu=1.0), "TPLSimple": dict(nu=2.0)}   # admissible in dim 1-3
+# second value of every shape parameter (variant "shape"): the property quantifies over shape parameters
+SHAPE = {"Matern": dict(nu=2.5), "Stable": dict(alpha=0.75), "Rational": dict(alpha=3.0), "Integral": dict(nu=2.5), "HyperSpherical": dict(nu=2.5),
+         "SuperSpherical": dict(nu=2.5), "JBessel": dict(nu=1.5), "TPLSimple": dict(nu=3.0), "TPLGaussian": dict(hurst=0.25),
+         "TPLExponential": dict(hurst=0.25), "TPLStable": dict(hurst=0.25, alpha=1.0)}
 ROUTES = ["direct", "dim-assigned", "len-assigned", "rescale-assigned"]
 TPL = ("TPLGaussian", "TPLExponential", "TPLStable")
 
@@ -41,6 +45,8 @@ def build(gs, cls, d, e, variant, route="direct", **over):
     kw.update(OPT.get(cls, {}))
     if variant == "rescaled":
         kw["rescale"] = 4.0
+    if variant == "shape":
+        kw.update(SHAPE.get(cls, {}))
     if variant == "lower-truncation" and cls in TPL:
         kw["len_low"] = 0.5 * 2.0 ** e
     kw.update(over)
@@ -168,6 +174,8 @@ def run_case(gs, c, exp, variant):
     route = str(c.get("route", "direct"))
     out = []
     if route == "rescale-assigned" and variant != "rescaled":
+        return None
+    if variant == "shape" and cls not in SHAPE:
         return None
     try:
         m = build(gs, cls, d, e, variant, route)
@@ -312,7 +320,7 @@ def run(pid, tier, seed, replay=None):
     if not thorough:    # quick: the assignment routes on two wave numbers and two units only
         cases = [(c, e) for c, e in cases if c["route"] == "direct" or (c["j"] in (1, 4) and c["e"] >= 0)]
     rng.shuffle(cases)
-    variants = ["plain", "rescaled", "lower-truncation"]
+    variants = ["plain", "rescaled", "lower-truncation", "shape"]
     import multiprocessing as mp
 
     work = [(v, cases[i::6]) for v in variants for i in range(6)]
